@@ -18,6 +18,9 @@ from .common import key_of, union, isinstance_handled, noreturn_set, class_names
 from .shared import path_conditions, enclosing
 from . import c01, c03
 from .shared import Retag as shared_retag
+from . import shared
+
+NEEDS_READER = True  # the attached C06.2 clauses come with the C06 reader facts
 
 EFFECTS = {"connect", "replace", "disconnect", "popitem"}
 
@@ -85,6 +88,14 @@ def check(repo: Repo, R) -> None:
     from . import c18 as _c18
     R.run(_c18.check, repo, shared_retag(R, lambda r: "C02.8-displaced-attribute-disowned" if r.startswith("C18.1") else None,
                                   "an object displaced by re-using its name keeps its owner and its place in a per-kind container: the ownership check accepts it and the package declares two objects of one name"))
+    # "a no-connect that is also referenced elsewhere": the replacement net is wired to the one port of the group and to
+    # nothing that merely depends on the reference (its slices and concatenations are not counted by the cardinality guard)
+    R.run(c01.noconn_private, repo, shared_retag(R, lambda r: "C02.10-noconn-net-stays-private",
+                                                "a port tied to a no-connect whose reference is also used inside a slice or concatenation is accepted: those are quietly rewired onto the `unconnected` net"), noret)
+    # "name-clashing module": the name is reserved before the modules below are exported, and a taken name is refused
+    from . import c06 as _c06
+    R.run(_c06.check, repo, shared_retag(R, lambda r: "C02.9-module-name-clash-refused" if r.startswith("C06.2") else None,
+                                        "two different modules of one qualified name (a parent and a module below it) are both exported under it"))
     R.run(dead_guards, repo, R, "C02.6-no-dead-guards", [("_elaborated", "Module", F_MODULE), ("_pre_flattening_io", "Module", F_MODULE)])
     R.floor("C02.1-live-checking-passes", 2)
     R.floor("C02.3-dispatch-complete", 4)
@@ -490,6 +501,24 @@ def guard_inventory(repo: Repo, R, noret):
             inst_loop = all(k in it for k in ("module.instances", "module.instarrays", "module.instbundles"))
     R.check(ns_loop and inst_loop, rule, key_of(foe), foe.site, f"ownership is checked for every namespace attribute ({ns_loop}) and every connection of instances, arrays and instance bundles ({inst_loop})",
             why="connections of arrays / instance bundles to foreign signals are not checked")
+    # every connection kind that is owned (or refers to something owned) reaches the ownership assertion whenever it is
+    # met: no test besides the kind dispatch stands between the arm and the assertion
+    fcc = repo.func(F_ORPH, "Orphanage.check_connectable")
+    subj = fcc.node.args.args[2].arg
+    owners = {"Signal": subj, "BundleInstance": subj, "PortRef": f"{subj}.inst", "BundleRef": f"{subj}.root()"}
+    universe = set(union(repo, F_CONNECT, "Connectable"))
+    seen_k = {}
+    for c, b in pat.find("self.assert_parentage(module, $A)", fcc.node):
+        kinds = shared.admissible_kinds(fcc.node, c, subj, universe) - {"<other>"}
+        extra = [("" if pol else "not ") + ast.unparse(t) for t, pol in shared.path_conditions(fcc.node, c) if not (isinstance(t, ast.Call) and (au.isinstance_classes(t) or [None])[0] is not None and ast.unparse(au.isinstance_classes(t)[0]) == subj)]
+        for k in kinds:
+            if k in owners and shared.prov_text(fcc.node, b["A"]) == owners[k]:
+                seen_k.setdefault(k, []).append(extra)
+    for k, who in owners.items():
+        ok_k = k in seen_k and any(not e for e in seen_k[k])
+        R.check(ok_k, rule, key_of(fcc, f"owner-asserted-{k}"), fcc.site,
+                f"a {k} connection has the ownership of `{who}` asserted unconditionally: {ok_k}" + (f" (only when {seen_k[k][0]})" if k in seen_k and not ok_k else ""),
+                why=f"a {k} whose owner is exempted (held by no module, say) passes: a port reference to a never-added instance that is referred to again is resolved to an invented net and exported without its driver")
     foc = repo.func(F_ORPH, "Orphanage.check_instance")
     tot = any(isinstance(n, ast.For) and ast.unparse(n.iter) == "inst.conns.values()" and bool(pat.find("self.check_connectable(module, $C)", n)) for n in au.walk_no_nested(foc.node))
     R.check(tot, rule, key_of(foc), foc.site, f"every connection of the instance is ownership-checked: {tot}", why="some connections escape the ownership check")
@@ -528,7 +557,6 @@ def guard_inventory(repo: Repo, R, noret):
     export_slice_guards(repo, R, noret, rule)
     fct = repo.func(F_EXPORT, "export_connection_target")
     # a connection that is none of Signal / Slice / Concat reaches a raise (whatever the shape of the dispatch)
-    from . import shared
 
     sv = fct.node.args.args[0].arg
     cur = None
